@@ -162,6 +162,9 @@ type Fault struct {
 // Disk is the durable state of one server across all its incarnations.
 type Disk struct {
 	StoreDelay time.Duration // set once before the first incarnation starts
+	// StableDelay: a stable-store write takes this long before it takes effect (or the armed fault strikes). Meanwhile the
+	// goroutine that issued it (usually raft's main loop) sits in the call while the others (heartbeat fast path, API readers) go on.
+	StableDelay time.Duration
 	w          *World
 	name       string
 	flavor     Flavor
@@ -441,6 +444,9 @@ func (h *Handle) GetCommitIndex() (uint64, error) {
 // ---- StableStore ----
 
 func (h *Handle) Set(k, v []byte) error {
+	if d := h.d.StableDelay; d > 0 {
+		time.Sleep(d)
+	}
 	return h.op("set."+string(k), Ev{X: string(k), Y: string(v)}, func(im *image) {
 		im.kv[string(k)] = append([]byte(nil), v...)
 	})
@@ -457,6 +463,9 @@ func (h *Handle) Get(k []byte) ([]byte, error) {
 }
 
 func (h *Handle) SetUint64(k []byte, v uint64) error {
+	if d := h.d.StableDelay; d > 0 {
+		time.Sleep(d)
+	}
 	return h.op("setu."+string(k), Ev{X: string(k), A: v}, func(im *image) { im.kvi[string(k)] = v })
 }
 
